@@ -12,7 +12,7 @@ use wire::validate::*;
 use wire::*;
 use wtransport::endpoint::ConnectOptions;
 
-const RULE: &str = "scenario = session setup from the C02 generator (URL, 0..12 header fields, server decision) with the wtransport endpoint in either role against a recording raw peer, followed by 0..6 application streams (uni/bidi, generated payloads), 0..4 datagrams and a final Connection::close(code, reason); session ids 0, 256 and 4 x (1..90) with 62 / 63 / 64 burnt request streams preferred (1-/2-byte boundary of the quarter stream id); the recording peer advertises the default or a small per-stream receive window (1..400 bytes), so that SETTINGS, HEADERS, stream headers and payloads are written across flow-control boundaries. Everything the endpoint opened or sent is decoded with the reference codec: exactly one control stream whose first frame is a single SETTINGS (ENABLE_WEBTRANSPORT=1, H3_DATAGRAM=1, ENABLE_CONNECT_PROTOCOL=1, QPACK capacity/blocked absent or 0, no id twice, no reserved id, no second SETTINGS, nothing that is not a frame); request / response field sections with prefix (0,0), static or literal representations only, pseudo-fields first, the five request pseudo-fields resp. a 3-digit :status; every WT uni stream 0x54||session||bytes, every WT bidi stream 0x41||session||bytes, every datagram quarter-id||payload; the close code and reason the peer sees are the application's; ALPN is exactly h3. Non-trivial: the endpoint emitted >= 1 HEADERS and >= 1 WT stream or datagram; distinct = distinct scenario";
+const RULE: &str = "scenario = session setup from the C02 generator (URL, 0..12 header fields, server decision) with the wtransport endpoint in either role against a recording raw peer, followed by 0..6 application streams (uni/bidi, generated payloads), 0..4 datagrams error paths while the application keeps accepting (uni / bidi streams naming a foreign session -> STOP_SENDING WEBTRANSPORT_BUFFERED_STREAM_REJECTED; a plain GET request -> STOP_SENDING H3_REQUEST_REJECTED) and a final Connection::close(code, reason) or a connection error provoked by the raw peer (DATA on its control stream, second control stream, FIN of its control stream, invalid session id) whose CONNECTION_CLOSE code must be the registered one; session ids 0, 256 and 4 x (1..90) with 62 / 63 / 64 burnt request streams preferred (1-/2-byte boundary of the quarter stream id); the recording peer advertises the default or a small per-stream receive window (1..400 bytes), so that SETTINGS, HEADERS, stream headers and payloads are written across flow-control boundaries. Everything the endpoint opened or sent is decoded with the reference codec: exactly one control stream whose first frame is a single SETTINGS (ENABLE_WEBTRANSPORT=1, H3_DATAGRAM=1, ENABLE_CONNECT_PROTOCOL=1, QPACK capacity/blocked absent or 0, no id twice, no reserved id, no second SETTINGS, nothing that is not a frame); request / response field sections with prefix (0,0), static or literal representations only, pseudo-fields first, the five request pseudo-fields resp. a 3-digit :status; every WT uni stream 0x54||session||bytes, every WT bidi stream 0x41||session||bytes, every datagram quarter-id||payload; the close code and reason the peer sees are the application's; ALPN is exactly h3. Non-trivial: the endpoint emitted >= 1 HEADERS and >= 1 WT stream or datagram; distinct = distinct scenario";
 
 #[derive(Clone, Debug, Serialize, Deserialize)]
 pub struct Case {
@@ -32,6 +32,19 @@ pub struct Case {
     /// the quarter stream id that prefixes every datagram
     #[serde(default)]
     pub burn: u16,
+    /// error paths that make the endpoint put a code on the wire while the session is up (the
+    /// application keeps accepting): each mod 3 = 0 a uni stream naming a foreign session, 1 a bidi
+    /// stream naming a foreign session (STOP_SENDING WEBTRANSPORT_BUFFERED_STREAM_REJECTED),
+    /// 2 a plain GET request (server role: STOP_SENDING H3_REQUEST_REJECTED)
+    #[serde(default)]
+    pub err_paths: Vec<u8>,
+    /// how the connection ends (mod 5): 0 the application's close(code, reason); otherwise the raw
+    /// peer provokes a connection error whose registered code must appear in CONNECTION_CLOSE:
+    /// 1 DATA on its control stream (H3_FRAME_UNEXPECTED), 2 a second control stream
+    /// (H3_STREAM_CREATION_ERROR), 3 FIN of its control stream (H3_CLOSED_CRITICAL_STREAM),
+    /// 4 a WebTransport stream with an invalid session id (H3_ID_ERROR)
+    #[serde(default)]
+    pub final_error: u8,
 }
 
 pub fn case_strategy() -> impl Strategy<Value = Case> {
@@ -44,9 +57,9 @@ pub fn case_strategy() -> impl Strategy<Value = Case> {
         prop_oneof![Just(0u64), Just(0x100), any::<u32>().prop_map(|v| v as u64), 0u64..(1 << 62)],
         proptest::collection::vec(any::<u8>(), 0..30),
         prop_oneof![3 => Just(0u16), 1 => Just(1u16), 1 => Just(4), 1 => Just(11), 1 => Just(24), 1 => 2u16..400],
-        prop_oneof![6 => Just(0u16), 2 => Just(63u16), 1 => Just(62), 1 => Just(64), 1 => Just(15), 1 => Just(16), 1 => 1u16..90],
+        (prop_oneof![6 => Just(0u16), 2 => Just(63u16), 1 => Just(62), 1 => Just(64), 1 => Just(15), 1 => Just(16), 1 => 1u16..90], prop_oneof![2 => Just(Vec::new()), 1 => proptest::collection::vec(0u8..3, 1..4)], prop_oneof![3 => Just(0u8), 1 => 1u8..5]),
     )
-        .prop_map(|(mut setup, wt_is_client, high_session, mut streams, datagrams, close_code, close_reason, peer_window, burn)| {
+        .prop_map(|(mut setup, wt_is_client, high_session, mut streams, datagrams, close_code, close_reason, peer_window, (burn, err_paths, final_error))| {
             // every window update costs a round trip: with a small peer window keep every frame and
             // stream within ~40 windows (the SETTINGS / HEADERS frames still cross several boundaries)
             if peer_window > 0 {
@@ -69,7 +82,7 @@ pub fn case_strategy() -> impl Strategy<Value = Case> {
                 // the C02 window (wtransport side) stays at its default here
                 setup.window = 0;
             }
-            Case { setup, wt_is_client, high_session, streams, datagrams, close_code, close_reason, peer_window, burn }
+            Case { setup, wt_is_client, high_session, streams, datagrams, close_code, close_reason, peer_window, burn, err_paths, final_error }
         })
 }
 
@@ -82,11 +95,13 @@ async fn exec_async(case: Arc<Case>) -> CaseResult {
     let accepting = matches!(setup.decision, c02::Decision::Accept | c02::Decision::AcceptWithHeaders(_));
     let mut emitted_headers = false;
     let mut emitted_wt = false;
+    let mut emitted_codes = 0usize;
     let conn: Option<wtransport::Connection>;
     let raw_conn: quinn::Connection;
     let session: u64;
     let recorder: Recorder;
     let mut _keep: Vec<Box<dyn std::any::Any + Send>> = Vec::new();
+    let mut raw_control: quinn::SendStream;
     let raw_tuning = Tuning { stream_receive_window: if case.peer_window > 0 { Some(case.peer_window as u32) } else { None }, ..Default::default() };
     if case.wt_is_client {
         // wtransport client against a raw server that records everything, including the request stream
@@ -165,7 +180,8 @@ async fn exec_async(case: Arc<Case>) -> CaseResult {
         raw_conn = rc;
         session = sid;
         recorder = rec;
-        _keep.push(Box::new((client_ep, raw_ep, send, control)));
+        raw_control = control;
+        _keep.push(Box::new((client_ep, raw_ep, send)));
     } else {
         // raw client against the wtransport server; the raw client reads the response itself
         let server_ep = wt_server(&Tuning::default());
@@ -263,7 +279,8 @@ async fn exec_async(case: Arc<Case>) -> CaseResult {
         raw_conn = rc;
         session = sid;
         recorder = rec;
-        _keep.push(Box::new((server_ep, ep, control, rs, rr)));
+        raw_control = control;
+        _keep.push(Box::new((server_ep, ep, rs, rr)));
     }
     // ALPN
     match raw_conn.handshake_data().and_then(|h| h.downcast::<quinn::crypto::rustls::HandshakeData>().ok()) {
@@ -308,7 +325,98 @@ async fn exec_async(case: Arc<Case>) -> CaseResult {
                 expect_dg.push(data);
             }
         }
+        // error paths: the application keeps accepting, the raw peer provokes refusals
+        let reg = |c: u64| c;
+        let mut app_tasks = Vec::new();
+        if !case.err_paths.is_empty() {
+            let c = conn.clone();
+            app_tasks.push(tokio::spawn(async move {
+                let mut kept = Vec::new();
+                while let Ok(s) = c.accept_uni().await {
+                    kept.push(s);
+                }
+            }));
+            let c = conn.clone();
+            app_tasks.push(tokio::spawn(async move {
+                let mut kept = Vec::new();
+                while let Ok(s) = c.accept_bi().await {
+                    kept.push(s);
+                }
+            }));
+        }
+        for (i, e) in case.err_paths.iter().enumerate() {
+            let kind = if e % 3 == 2 && case.wt_is_client { 0 } else { e % 3 };
+            let (mut s, want, what) = match kind {
+                0 => {
+                    let Ok(mut s) = raw_conn.open_uni().await else { return CaseResult::Skip("open_uni".into()) };
+                    let mut b = refcodec::enc_uni_header_wt(session + 4 * (i as u64 + 1));
+                    b.extend_from_slice(b"foreign");
+                    let _ = s.write_all(&b).await;
+                    (s, reg(refcodec::registry::WT_BUFFERED_STREAM_REJECTED), "a uni stream naming a foreign session")
+                }
+                1 => {
+                    let Ok((mut s, r)) = raw_conn.open_bi().await else { return CaseResult::Skip("open_bi".into()) };
+                    let mut b = refcodec::enc_bi_header_wt(session + 4 * (i as u64 + 1));
+                    b.extend_from_slice(b"foreign");
+                    let _ = s.write_all(&b).await;
+                    _keep.push(Box::new(r));
+                    (s, reg(refcodec::registry::WT_BUFFERED_STREAM_REJECTED), "a bidi stream naming a foreign session")
+                }
+                _ => {
+                    let Ok((mut s, r)) = raw_conn.open_bi().await else { return CaseResult::Skip("open_bi".into()) };
+                    let _ = s.write_all(&headers_frame(&[(":method".into(), "GET".into(), Default::default()), (":scheme".into(), "https".into(), Default::default()), (":authority".into(), "localhost".into(), Default::default()), (":path".into(), "/".into(), Default::default())])).await;
+                    _keep.push(Box::new(r));
+                    (s, reg(refcodec::registry::H3_REQUEST_REJECTED), "a plain GET request")
+                }
+            };
+            match tokio::time::timeout(Duration::from_secs(4), s.stopped()).await {
+                Ok(Ok(Some(c))) => {
+                    if c.into_inner() != want {
+                        return fail("error-code", format!("{what} was refused with STOP_SENDING code {:#x}, the registered value is {want:#x}", c.into_inner()));
+                    }
+                    emitted_codes += 1;
+                }
+                Ok(other) => return fail("error-code", format!("{what}: stopped() = {:?}, expected STOP_SENDING {want:#x}", other.map(|o| o.map(|v| v.into_inner())))),
+                Err(_) => return CaseResult::Timeout(format!("{what} was not refused within 4 s")),
+            }
+            _keep.push(Box::new(s));
+        }
         tokio::time::sleep(Duration::from_millis(40)).await;
+        if case.final_error % 5 != 0 {
+            let (want, what) = match case.final_error % 5 {
+                1 => {
+                    let _ = raw_control.write_all(&refcodec::enc_frame(refcodec::registry::FRAME_DATA, b"d")).await;
+                    (refcodec::registry::H3_FRAME_UNEXPECTED, "DATA on the control stream")
+                }
+                2 => {
+                    if let Ok(mut s) = raw_conn.open_uni().await {
+                        let _ = s.write_all(&control_preamble(&default_settings())).await;
+                        _keep.push(Box::new(s));
+                    }
+                    (refcodec::registry::H3_STREAM_CREATION_ERROR, "a second control stream")
+                }
+                3 => {
+                    let _ = raw_control.finish();
+                    (refcodec::registry::H3_CLOSED_CRITICAL_STREAM, "FIN of the control stream")
+                }
+                _ => {
+                    if let Ok(mut s) = raw_conn.open_uni().await {
+                        let _ = s.write_all(&refcodec::enc_uni_header_wt(session + 1)).await;
+                        _keep.push(Box::new(s));
+                    }
+                    (refcodec::registry::H3_ID_ERROR, "a WebTransport stream with an invalid session id")
+                }
+            };
+            match tokio::time::timeout(Duration::from_secs(5), raw_conn.closed()).await {
+                Ok(e) => {
+                    if close_seen(&e) != CloseSeen::Application(want, vec![]) {
+                        return fail("error-code", format!("after {what} the peer saw {:?}, the registered CONNECTION_CLOSE code is {want:#x}", close_seen(&e)));
+                    }
+                    emitted_codes += 1;
+                }
+                Err(_) => return CaseResult::Timeout(format!("after {what} the peer never saw a close")),
+            }
+        } else {
         conn.close(wtransport::VarInt::try_from_u64(case.close_code).unwrap(), &case.close_reason);
         match tokio::time::timeout(Duration::from_secs(5), raw_conn.closed()).await {
             Ok(e) => {
@@ -318,6 +426,10 @@ async fn exec_async(case: Arc<Case>) -> CaseResult {
                 }
             }
             Err(_) => return CaseResult::Timeout("peer never saw the close".into()),
+        }
+        }
+        for t in app_tasks {
+            t.abort();
         }
     } else {
         tokio::time::sleep(Duration::from_millis(30)).await;
@@ -405,6 +517,9 @@ async fn exec_async(case: Arc<Case>) -> CaseResult {
     if !accepting {
         labels.push("rejected-session");
     }
+    if emitted_codes > 0 {
+        labels.push("error-code-on-the-wire");
+    }
     if case.peer_window > 0 && case.peer_window <= 24 {
         labels.push("peer-window<=24");
     }
@@ -429,7 +544,7 @@ pub fn run(run: &Run) {
         |c| judge(|| exec(c), false, "C16:hang"),
         |c| serde_json::to_value(c).unwrap(),
     );
-    for l in ["role:client", "role:server", "session>=256", "datagram-seen", "wt-uni-seen", "wt-bidi-seen", "rejected-session", "peer-window<=24", "session=252(quarter id 63)"] {
+    for l in ["role:client", "role:server", "session>=256", "datagram-seen", "wt-uni-seen", "wt-bidi-seen", "rejected-session", "peer-window<=24", "session=252(quarter id 63)", "error-code-on-the-wire"] {
         run.essential(l);
     }
 }
